@@ -59,10 +59,16 @@ Proof. exact n6_from_spec. Qed.
 Theorem C12_f32_into_n10 : forall b k, 0 <= b < LIM -> 1 <= k <= 1023 ->
   (b < Tf 1023 65535 k -> n10_from b <= k - 1) /\ (Tf 1023 65535 k <= b -> k <= n10_from b) /\ Z.abs (Tf 1023 65535 k - ideal_boundary 1023 k) <= 1.
 Proof. exact n10_from_spec. Qed.
+(* SNORM8 fields: the stored code is (level + 1 - 128) mod 256 with the level decided as above for max = 254 *)
+Theorem C12_f32_into_s8 : forall b k, 0 <= b < LIM -> 1 <= k <= 254 ->
+  (b < Tf 254 255 k -> Qf 254 255 b <= k - 1) /\ (Tf 254 255 k <= b -> k <= Qf 254 255 b) /\ Z.abs (Tf 254 255 k - ideal_boundary 254 k) <= 1.
+Proof. exact s8_level_spec. Qed.
+Theorem C12_s8_from_level : forall b, s8_from b = (Qf 254 255 b + 1 - 128) mod 256.
+Proof. exact s8_from_level. Qed.
 
 Example C12_ex : encode_px 6 (to_rgba_f32 3 0 [255; 128; 0; 255]) = [0; 252] /\ encode_px 21 (to_rgba_f32 0 1 [45772]) = le_bytes 4 (715 + Z.shiftl 715 10 + Z.shiftl 715 20 + Z.shiftl 3 30).
 Proof. split; vm_compute; reflexivity. Qed.
 
 Definition C12_all := (C12_roundtrip_u8, C12_roundtrip_u16, C12_quantise_u8, C12_quantise_u16, C12_f32_into_unorm8, C12_f32_into_unorm8_between, C12_f32_into_unorm16,
-  C12_f32_into_n2, C12_f32_into_n4, C12_f32_into_n5, C12_f32_into_n6, C12_f32_into_n10).
+  C12_f32_into_n2, C12_f32_into_n4, C12_f32_into_n5, C12_f32_into_n6, C12_f32_into_n10, C12_f32_into_s8, C12_s8_from_level).
 Redirect "props/C12.assumptions" Print Assumptions C12_all.
